@@ -181,3 +181,161 @@ func RunMethodValueUses(c *Ctx, rule, pkg, recvType string, methods []string, wr
 		}
 	}
 }
+
+// RunFieldWriters: assignments to field `field` of named type pkg.typ (through any access path) may appear only in `allowed`.
+// Decoders (UnmarshalJSON of the type itself) are exempt.
+func RunFieldWriters(c *Ctx, rule, pkg, typ, field string, allowed []string, why string) {
+	ok := map[string]bool{}
+	for _, a := range allowed {
+		ok[a] = true
+		if c.P.Fn(a) == nil {
+			c.R.Fail("anchor-unresolved", a, rule, "writer "+a+" not found: re-point the table")
+		}
+	}
+	n := 0
+	for _, fi := range c.P.Funcs {
+		if fi.Body == nil || fi.Ctl {
+			continue
+		}
+		info := fi.Pkg.TypesInfo
+		check := func(l ast.Expr) {
+			sel, isSel := unparen(l).(*ast.SelectorExpr)
+			if !isSel || sel.Sel.Name != field {
+				return
+			}
+			s, has := info.Selections[sel]
+			if !has || s.Kind() != types.FieldVal {
+				return
+			}
+			named, _ := derefType(s.Recv()).(*types.Named)
+			if named == nil || named.Obj().Name() != typ || named.Obj().Pkg() == nil || shortPkg(named.Obj().Pkg().Path()) != pkg {
+				return
+			}
+			n++
+			name := fi.Root().Name
+			good := ok[name]
+			c.R.Obl(Obligation{Rule: rule, Func: fi.Name, Construct: "write to " + typ + "." + field, Pos: c.P.Position(sel.Pos()), Discharged: good, Nontrivial: true, How: []string{"writer table: " + strings.Join(allowed, ", ")}})
+			if !good {
+				c.R.Find(Finding{Rule: rule, Func: fi.Name, Construct: "unaccounted write to " + typ + "." + field, Pos: c.P.Position(sel.Pos()),
+					Msg: fmt.Sprintf("%s.%s.%s is written in %s, which is not in the reviewed writer table (%s)", pkg, typ, field, fi.Name, why)})
+			}
+		}
+		ast.Inspect(fi.Body, func(nd ast.Node) bool {
+			switch s := nd.(type) {
+			case *ast.FuncLit:
+				return nd == ast.Node(fi.Lit) || fi.Lit == nil && false || true
+			case *ast.AssignStmt:
+				for _, l := range s.Lhs {
+					check(l)
+				}
+			case *ast.IncDecStmt:
+				check(s.X)
+			}
+			return true
+		})
+	}
+	if n == 0 {
+		c.R.Find(Finding{Rule: "vacuity", Func: "-", Construct: rule, Pos: "-", Msg: "no write to " + typ + "." + field + " found: re-point rule " + rule})
+	}
+}
+
+// RunConstSlice: package-level slice variable pkg.name is initialised with exactly the listed elements (objects by
+// qualified name) and is never assigned elsewhere.
+func RunConstSlice(c *Ctx, rule, pkg, name string, want []string) {
+	for _, pk := range c.P.Scope {
+		if shortPkg(pk.PkgPath) != pkg {
+			continue
+		}
+		for _, f := range pk.Syntax {
+			for _, d := range f.Decls {
+				gd, ok := d.(*ast.GenDecl)
+				if !ok {
+					continue
+				}
+				for _, sp := range gd.Specs {
+					vs, ok := sp.(*ast.ValueSpec)
+					if !ok {
+						continue
+					}
+					for i, id := range vs.Names {
+						if id.Name != name || i >= len(vs.Values) {
+							continue
+						}
+						lit, ok := vs.Values[i].(*ast.CompositeLit)
+						var got []string
+						if ok {
+							tb := &termBuilder{info: pk.TypesInfo, inl: map[types.Object]ast.Expr{}, fset: c.P.Fset}
+							for _, e := range lit.Elts {
+								got = append(got, tb.term(e).String())
+							}
+						}
+						good := strings.Join(got, ",") == strings.Join(want, ",")
+						c.R.Obl(Obligation{Rule: rule, Func: pkg + "." + name, Construct: "initialiser", Pos: c.P.Position(id.Pos()), Discharged: good, Nontrivial: true, How: []string{"elements: " + strings.Join(got, ", ")}})
+						if !good {
+							c.R.Find(Finding{Rule: rule, Func: pkg + "." + name, Construct: "initialiser differs from table", Pos: c.P.Position(id.Pos()),
+								Msg: fmt.Sprintf("%s.%s = {%s}, specification table says {%s}", pkg, name, strings.Join(got, ", "), strings.Join(want, ", "))})
+						}
+						return
+					}
+				}
+			}
+		}
+	}
+	c.R.Fail("anchor-unresolved", pkg+"."+name, rule, "package-level variable not found")
+}
+
+// RunForbiddenImport: none of the non-test files of the listed packages imports any of the paths.
+func RunForbiddenImport(c *Ctx, rule string, pkgs []string, forbidden []string) {
+	in := map[string]bool{}
+	for _, p := range pkgs {
+		in[p] = true
+	}
+	bad := map[string]bool{}
+	for _, f := range forbidden {
+		bad[f] = true
+	}
+	files := 0
+	for _, pk := range c.P.Scope {
+		if !in[shortPkg(pk.PkgPath)] {
+			continue
+		}
+		for _, f := range pk.Syntax {
+			fname := c.P.Fset.Position(f.Pos()).Filename
+			if excludedFile(fname) {
+				continue
+			}
+			files++
+			okFile := true
+			for _, im := range f.Imports {
+				p := strings.Trim(im.Path.Value, `"`)
+				if bad[p] {
+					okFile = false
+					c.R.Find(Finding{Rule: rule, Func: shortPkg(pk.PkgPath), Construct: "import " + p, Pos: c.P.Position(im.Pos()), Msg: "forbidden import " + p + " (secrets and codes must come from crypto/rand)"})
+				}
+			}
+			c.R.Obl(Obligation{Rule: rule, Func: shortPkg(pk.PkgPath), Construct: "imports of " + fname[strings.LastIndex(fname, "/")+1:], Pos: c.P.Position(f.Pos()), Discharged: okFile, Nontrivial: false})
+		}
+	}
+	if files == 0 {
+		c.R.Fail("vacuity", "-", rule, "no files scanned")
+	}
+}
+
+// RunConstAtLeast: integer constant pkg.name >= min.
+func RunConstAtLeast(c *Ctx, rule, pkg, name string, min int64) {
+	for _, pk := range c.P.Scope {
+		if shortPkg(pk.PkgPath) != pkg {
+			continue
+		}
+		if o, ok := pk.Types.Scope().Lookup(name).(*types.Const); ok {
+			v, exact := constInt(o)
+			good := exact && v >= min
+			c.R.Obl(Obligation{Rule: rule, Func: pkg + "." + name, Construct: fmt.Sprintf("value %d >= %d", v, min), Pos: c.P.Position(o.Pos()), Discharged: good, Nontrivial: true})
+			if !good {
+				c.R.Find(Finding{Rule: rule, Func: pkg + "." + name, Construct: "constant below minimum", Pos: c.P.Position(o.Pos()), Msg: fmt.Sprintf("%s.%s = %d, must be at least %d", pkg, name, v, min)})
+			}
+			return
+		}
+	}
+	c.R.Fail("anchor-unresolved", pkg+"."+name, rule, "constant not found")
+}
